@@ -56,6 +56,17 @@ Section Tracer.
   Definition traces := list trace.             (* one per period: the object array self._trace *)
   Definition empty_trace : trace := mkTrace [] [] [].     (* Trace([]) *)
   Definition is_empty (x : trace) : bool := match tr_values x with [] => true | _ :: _ => false end.
+  (* list(current.names) != names *)
+  Fixpoint names_eqb (a b : list nat) : bool :=
+    match a, b with
+    | [], [] => true
+    | x :: a', y :: b' => Nat.eqb x y && names_eqb a' b'
+    | _, _ => false
+    end.
+  (* trace_t starts a FRESH Trace for the period when the existing one is empty, when reset=True, or (fix 7d04ae5) when it
+     was recorded for other variable names than the ones traced now — one array cannot hold both sets *)
+  Definition afresh (old : trace) (reset : bool) (names : list nat) : bool :=
+    is_empty old || reset || negb (names_eqb (tr_names old) names).
 
   (* Trace.append(label, values): the label is appended to `index` BEFORE np.hstack may raise ValueError
      (number of rows differs), so a failed append leaves one label more than there are columns *)
@@ -113,7 +124,7 @@ Section Tracer.
         | None => (tr, Some IndexError)
         | Some p =>
             let old := nth p tr empty_trace in
-            let cur := if is_empty old || reset then mkTrace names [] [] else old in
+            let cur := if afresh old reset names then mkTrace names [] [] else old in
             let '(new, e) := append_trace cur lab res in
             (upd p new tr, e)
         end
@@ -264,7 +275,7 @@ Section Tracer.
 
   (* what a successful trace_t leaves in the period's slot *)
   Definition push (names : list nat) (reset : bool) (old : trace) (lab : tlabel) (res : list num) : trace :=
-    if is_empty old || reset then mkTrace names [lab] [res]
+    if afresh old reset names then mkTrace names [lab] [res]
     else mkTrace (tr_names old) (tr_index old ++ [lab]) (tr_values old ++ [res]).
 
 End Tracer.
